@@ -959,7 +959,7 @@ def check(src, rep, tier):
                        'with no intervening cursor change, the cursor update lies on every path to a return, out-of-range returns b\'\'.  '
                        '(R3) header slices/roles equal the ar(5) table, numeric fields via int(), data window = tell()/+size.  (R4) the '
                        'advance after a member is size + (size mod 2) for both parities.  (R5) whence table and tell.  (R6) listing order and last-wins index.')
-    rep.not_decided = ['equality with an in-memory file under arbitrary operation histories', 'read(size<=0) conventions', 'GNU long names']
+    rep.not_decided = ['equality with an in-memory file under arbitrary operation histories', 'GNU long names']
     rep.need('C06.R1', 2)
     rep.need('C06.R2', 6)
     rep.need('C06.R3', 15)
